@@ -91,7 +91,7 @@ func fqSignBit(x E2) byte {
 // FQResult is the verdict of the reference FourQ decoder.
 type FQResult struct {
 	OK    bool
-	Stage string // ok, length, bit127, range, no-sqrt, x-zero-sign
+	Stage string // ok, length, bit127, noncanonical-coordinate, no-sqrt, x-zero-sign
 	P     FQPoint
 }
 
@@ -111,7 +111,7 @@ func FQDecode(b []byte) FQResult {
 	y0 := leToInt(b[:16])
 	y1 := leToInt(hi)
 	if y0.Cmp(FQP) >= 0 || y1.Cmp(FQP) >= 0 {
-		return FQResult{Stage: "range"}
+		return FQResult{Stage: "noncanonical-coordinate"}
 	}
 	y := E2{y0, y1}
 	y2 := f.E2Sqr(y)
